@@ -67,104 +67,99 @@ Fixpoint last_with_ssrc (ssrc : N) (l : list tdetail) (i : nat) (cur : option na
 Definition with_tracks (st : tdstate) (l : list tdetail) : tdstate :=
   {| ts_tracks := l; ts_rtx := ts_rtx st; ts_fec := ts_fec st; ts_stream := ts_stream st; ts_track := ts_track st |}.
 
+(* case sdp.AttrKeySSRCGroup, for one semantics token: flows / set select the
+   FID (rtx) or FEC-FR (fec) variant *)
+Definition step_group_with (rtx : bool) (st : tdstate) (sp : list string) : result tdstate :=
+  match sp with
+  | [_; b; r] =>
+      match parse_u32 b with
+      | None => Ok st
+      | Some base =>
+          match parse_u32 r with
+          | None => Ok st
+          | Some rep =>
+              let set := if rtx then (fun t => td_with_rtx t (Some rep)) else (fun t => td_with_fec t (Some rep)) in
+              match mark_repair set base (filter_track_with_ssrc (ts_tracks st) rep) with
+              | Ok l =>
+                  Ok {| ts_tracks := l;
+                        ts_rtx := if rtx then flow_set rep base (ts_rtx st) else ts_rtx st;
+                        ts_fec := if rtx then ts_fec st else flow_set rep base (ts_fec st);
+                        ts_stream := ts_stream st; ts_track := ts_track st |}
+              | Err e => Err e
+              | Panic => Panic
+              end
+          end
+      end
+  | _ => Ok st
+  end.
+
+Definition step_group (st : tdstate) (v : string) : result tdstate :=
+  let sp := split_sp v in
+  match sp with
+  | h :: _ =>
+      if String.eqb h "FID" then step_group_with true st sp
+      else if String.eqb h "FEC-FR" then step_group_with false st sp
+      else Ok st
+  | [] => Panic
+  end.
+
+(* case sdp.AttrKeyMsid *)
+Definition step_msid (st : tdstate) (v : string) : result tdstate :=
+  match split_sp v with
+  | [s; t] => Ok {| ts_tracks := ts_tracks st; ts_rtx := ts_rtx st; ts_fec := ts_fec st;
+                    ts_stream := s; ts_track := t |}
+  | _ => Ok st
+  end.
+
+(* case sdp.AttrKeySSRC *)
+Definition step_ssrc (mid : string) (k : kind) (st : tdstate) (v : string) : result tdstate :=
+  let sp := split_sp v in
+  match sp with
+  | [] => Panic
+  | h :: _ =>
+      match parse_u32 h with
+      | None => Ok st
+      | Some ssrc =>
+          if flow_has ssrc (ts_rtx st) then Ok st
+          else if flow_has ssrc (ts_fec st) then Ok st
+          else
+            let (stream, track) :=
+              match sp with
+              | [_; m; t] =>
+                  match strip_prefix "msid:" m with
+                  | Some s => (s, t)
+                  | None => (ts_stream st, ts_track st)
+                  end
+              | _ => (ts_stream st, ts_track st)
+              end in
+            let existing := last_with_ssrc ssrc (ts_tracks st) 0 None in
+            let base := match existing with
+                        | Some i => nth_error (ts_tracks st) i
+                        | None => None
+                        end in
+            let rtx0 := match base with Some t => td_rtx t | None => None end in
+            let fec0 := match base with Some t => td_fec t | None => None end in
+            let rids0 := match base with Some t => td_rids t | None => [] end in
+            let t := {| td_mid := mid; td_kind := k; td_stream := stream; td_id := track;
+                        td_ssrcs := [ssrc];
+                        td_rtx := flow_repair_of ssrc (ts_rtx st) rtx0;
+                        td_fec := flow_repair_of ssrc (ts_fec st) fec0;
+                        td_rids := rids0 |} in
+            let tracks := match existing with
+                          | Some i => update_nth i (fun _ => t) (ts_tracks st)
+                          | None => (ts_tracks st ++ [t])%list
+                          end in
+            Ok {| ts_tracks := tracks; ts_rtx := ts_rtx st; ts_fec := ts_fec st;
+                  ts_stream := stream; ts_track := track |}
+      end
+  end.
+
+(* the switch over attr.Key *)
 Definition td_step (mid : string) (k : kind) (st : tdstate) (a : string * string) : result tdstate :=
   let (key, v) := a in
-  if String.eqb key "ssrc-group" then
-    let sp := split_sp v in
-    match sp with
-    | h :: _ =>
-        if String.eqb h "FID" then
-          match sp with
-          | [_; b; r] =>
-              match parse_u32 b with
-              | None => Ok st
-              | Some base =>
-                  match parse_u32 r with
-                  | None => Ok st
-                  | Some rep =>
-                      let flows := flow_set rep base (ts_rtx st) in
-                      match mark_repair (fun t => td_with_rtx t (Some rep)) base
-                                        (filter_track_with_ssrc (ts_tracks st) rep) with
-                      | Ok l => Ok {| ts_tracks := l; ts_rtx := flows; ts_fec := ts_fec st;
-                                      ts_stream := ts_stream st; ts_track := ts_track st |}
-                      | Err e => Err e
-                      | Panic => Panic
-                      end
-                  end
-              end
-          | _ => Ok st
-          end
-        else if String.eqb h "FEC-FR" then
-          match sp with
-          | [_; b; r] =>
-              match parse_u32 b with
-              | None => Ok st
-              | Some base =>
-                  match parse_u32 r with
-                  | None => Ok st
-                  | Some rep =>
-                      let flows := flow_set rep base (ts_fec st) in
-                      match mark_repair (fun t => td_with_fec t (Some rep)) base
-                                        (filter_track_with_ssrc (ts_tracks st) rep) with
-                      | Ok l => Ok {| ts_tracks := l; ts_rtx := ts_rtx st; ts_fec := flows;
-                                      ts_stream := ts_stream st; ts_track := ts_track st |}
-                      | Err e => Err e
-                      | Panic => Panic
-                      end
-                  end
-              end
-          | _ => Ok st
-          end
-        else Ok st
-    | [] => Panic
-    end
-  else if String.eqb key "msid" then
-    match split_sp v with
-    | [s; t] => Ok {| ts_tracks := ts_tracks st; ts_rtx := ts_rtx st; ts_fec := ts_fec st;
-                      ts_stream := s; ts_track := t |}
-    | _ => Ok st
-    end
-  else if String.eqb key "ssrc" then
-    let sp := split_sp v in
-    match sp with
-    | [] => Panic
-    | h :: _ =>
-        match parse_u32 h with
-        | None => Ok st
-        | Some ssrc =>
-            if flow_has ssrc (ts_rtx st) then Ok st
-            else if flow_has ssrc (ts_fec st) then Ok st
-            else
-              let (stream, track) :=
-                match sp with
-                | [_; m; t] =>
-                    match strip_prefix "msid:" m with
-                    | Some s => (s, t)
-                    | None => (ts_stream st, ts_track st)
-                    end
-                | _ => (ts_stream st, ts_track st)
-                end in
-              let existing := last_with_ssrc ssrc (ts_tracks st) 0 None in
-              let base := match existing with
-                          | Some i => nth_error (ts_tracks st) i
-                          | None => None
-                          end in
-              let rtx0 := match base with Some t => td_rtx t | None => None end in
-              let fec0 := match base with Some t => td_fec t | None => None end in
-              let rids0 := match base with Some t => td_rids t | None => [] end in
-              let t := {| td_mid := mid; td_kind := k; td_stream := stream; td_id := track;
-                          td_ssrcs := [ssrc];
-                          td_rtx := flow_repair_of ssrc (ts_rtx st) rtx0;
-                          td_fec := flow_repair_of ssrc (ts_fec st) fec0;
-                          td_rids := rids0 |} in
-              let tracks := match existing with
-                            | Some i => update_nth i (fun _ => t) (ts_tracks st)
-                            | None => (ts_tracks st ++ [t])%list
-                            end in
-              Ok {| ts_tracks := tracks; ts_rtx := ts_rtx st; ts_fec := ts_fec st;
-                    ts_stream := stream; ts_track := track |}
-        end
-    end
+  if String.eqb key "ssrc-group" then step_group st v
+  else if String.eqb key "msid" then step_msid st v
+  else if String.eqb key "ssrc" then step_ssrc mid k st v
   else Ok st.
 
 Fixpoint td_loop (mid : string) (k : kind) (st : tdstate) (attrs : list (string * string)) : result tdstate :=
